@@ -237,7 +237,39 @@ def real_cache(req):
     return ('ok', a)
 
 
-OPS = {'pyeq': real_pyeq, 'pyne': real_pyeq, 'hasheq': real_pyeq, 'cleanup': real_cleanup, 'cache': real_cache}
+def real_wlist(req):
+    """wrappers.wrappers over a real stack: levels outermost first; an int = a sigtools level made with wrapper function #k
+    (even: wrappers.decorator, odd: wrapper_decorator), 'W' = an ordinary functools.wraps decorator"""
+    _, levels = req
+    wf = {}
+
+    def wrapper_fn(k):
+        if k not in wf:
+            def w(func, *args, **kwargs):
+                return func(*args, **kwargs)
+            w.__name__ = 'w%d' % k
+            wf[k] = (wrappers.decorator if k % 2 == 0 else wrappers.wrapper_decorator)(w)
+        return wf[k]
+
+    def plainwrap(fn):
+        @functools.wraps(fn)
+        def pw(*a, **k):
+            return fn(*a, **k)
+        return pw
+
+    def f(x):
+        return x
+    obj = f
+    for l in reversed(levels):
+        obj = plainwrap(obj) if l == 'W' else wrapper_fn(l)(obj)
+    try:
+        ws = list(wrappers.wrappers(obj))
+    except Exception as e:  # noqa
+        return core.canon_exc(e)
+    return ('ok', tuple(int(w.__name__[1:]) for w in ws))
+
+
+OPS = {'pyeq': real_pyeq, 'pyne': real_pyeq, 'hasheq': real_pyeq, 'cleanup': real_cleanup, 'cache': real_cache, 'wlist': real_wlist}
 
 
 # ----------------------------------------------------------------------------- runtime-only checks (no model counterpart)
